@@ -233,7 +233,7 @@ func runCesiumInject(c tcase, target int, serialSkip [][]bool, serial bool) (obs
 		go func() { defer close(adone); runThread(0) }()
 		select {
 		case <-adone:
-		case <-time.After(90 * time.Second):
+		case <-watchdog(90 * time.Second):
 			obs.Stall = true
 			return
 		}
@@ -249,7 +249,7 @@ func runCesiumInject(c tcase, target int, serialSkip [][]bool, serial bool) (obs
 		if fired {
 			select {
 			case <-done:
-			case <-time.After(90 * time.Second):
+			case <-watchdog(90 * time.Second):
 				obs.Stall = true
 				return
 			}
@@ -445,7 +445,7 @@ func runDomainInject(c tcase, target int, serialSkip [][]bool, serial bool) (obs
 		go func() { defer close(adone); runThread(0, true) }()
 		select {
 		case <-adone:
-		case <-time.After(90 * time.Second):
+		case <-watchdog(90 * time.Second):
 			obs.Stall = true
 			return
 		}
@@ -461,7 +461,7 @@ func runDomainInject(c tcase, target int, serialSkip [][]bool, serial bool) (obs
 		if fired {
 			select {
 			case <-done:
-			case <-time.After(90 * time.Second):
+			case <-watchdog(90 * time.Second):
 				obs.Stall = true
 				return
 			}
@@ -532,7 +532,7 @@ func runDomainFree(c tcase, skew int) (obs runObs) {
 	go func() { wg.Wait(); close(done) }()
 	select {
 	case <-done:
-	case <-time.After(90 * time.Second):
+	case <-watchdog(90 * time.Second):
 		obs.Stall = true
 		return
 	}
@@ -597,7 +597,7 @@ func runFaultCase(c tcase) result {
 	select {
 	case o := <-done:
 		r.Conc = o
-	case <-time.After(40 * time.Second):
+	case <-watchdog(40 * time.Second):
 		r.Conc.Stall = true
 		buf := make([]byte, 1<<20)
 		n := runtime.Stack(buf, true)
